@@ -117,9 +117,9 @@ def run(ctx, config='rel-all'):
                     base_ptr = arena.pointer_of(base)
                     okf = rng[0] == 'agg' and rng[1].endswith('RangeFrom') and field_of(rng, 'start') == app('size', p(3)) and (base_ptr in gp or any(base_ptr == g for g in gp))
             if okf:
-                ctx.ok('R1', 'grow_zeroed zero-fills exactly [size(old)..] of the grown block', 'fill(index_mut(block, size(old)..), 0)')
+                ctx.ok('R6', 'grow_zeroed zero-fills exactly [size(old)..] of the grown block', 'fill(index_mut(block, size(old)..), 0)')
             else:
-                ctx.violation('R1', fn, 'zero-tail', 'grow_zeroed must fill exactly block[old_layout.size()..] with 0', body.get('span'))
+                ctx.violation('R6', fn, 'zero-tail', 'grow_zeroed must fill exactly block[old_layout.size()..] with 0', body.get('span'))
             # ... on EVERY successful return: what is returned is the grown (and filled) block, and no path from the grow call
             # reaches a return around the fill except through the failure edge of grow's result
             if calls and fills:
@@ -134,9 +134,9 @@ def run(ctx, config='rel-all'):
                 around = set(g.returns()) & g.reach([calls[0].block], avoid_blocks=[fills[0].block], avoid_edges=err_edges)
                 early = [bi for bi in g.returns() if not g.can_reach(calls[0].block, bi)] if len(g.returns()) > 1 else []
                 if not stray and not around and not early:
-                    ctx.ok('R1', 'grow_zeroed: every successful return hands out the block that grow returned, after the zero fill', 'payload identity + must-pass-through(fill) on the paths from the grow call')
+                    ctx.ok('R6', 'grow_zeroed: every successful return hands out the block that grow returned, after the zero fill', 'payload identity + must-pass-through(fill) on the paths from the grow call')
                 else:
-                    ctx.violation('R1', fn, 'zero-tail:every-path', 'grow_zeroed has a successful return that does not go through grow + the zero fill (%s)' % ('block from another source: ' + show(stray[0])[:80] if stray else 'a path around the fill'), body.get('span'))
+                    ctx.violation('R6', fn, 'zero-tail:every-path', 'grow_zeroed has a successful return that does not go through grow + the zero fill (%s)' % ('block from another source: ' + show(stray[0])[:80] if stray else 'a path around the fill'), body.get('span'))
     val = A.get('Allocator::deallocate')
     if val:
         I, res, body = val
